@@ -44,7 +44,16 @@ def call(payload):
             if '.' in qual and payload.get('ctor'):
                 cls, meth = qual.split('.')
                 obj = getattr(mod, cls)(*a[0])
-                r = getattr(obj, meth)(*a[1:])
+                if payload.get('history'):
+                    r = []
+                    for meth_k, margs in a[1]:
+                        try:
+                            r.append(getattr(obj, meth_k)(*margs))
+                        except Exception as e:    # noqa
+                            r.append(('raise', type(e).__name__))
+                            break
+                else:
+                    r = getattr(obj, meth)(*a[1:])
             else:
                 fn = mod
                 for part in qual.split('.'):
@@ -65,10 +74,17 @@ def serial(payload):
     from plotink import ebb_serial, ebb3_motion
     out = []
     for layer, method, args, script in payload['cases']:
-        port = FakePort(decode_reads(script.get('reads', [])), write_exc_at=script.get('write_exc_at', []))
+        responder = None
+        if script.get('ack'):
+            def responder(data, _s=script):
+                text = data.decode('latin-1')
+                name = text.split(',')[0].split('\r')[0]
+                return [(name + _s.get('data', '') + '\r\n').encode('latin-1')]
+        port = FakePort(decode_reads(script.get('reads', [])), write_exc_at=script.get('write_exc_at', []), responder=responder)
         try:
-            if layer == 'legacy':
-                r = getattr(ebb_serial, method)(port, *args)
+            if layer in ('legacy', 'legacy_motion'):
+                from plotink import ebb_motion
+                r = getattr(ebb_serial if layer == 'legacy' else ebb_motion, method)(port, *args)
                 out.append({'ret': enc(r), 'writes': [w.decode('latin-1') for w in port.writes]})
             else:
                 e = ebb3_motion.EBBMotionWrap()
